@@ -4,7 +4,7 @@ import vf
 
 META = dict(
     engine='RingBuffer.tla',
-    technique='TLA+ spec RingBuffer.tla (bounded queue refined by head/tail/data) model-checked by TLC; every generated transition/path replayed on octet_ring and a uint32_t instantiation; recorded random histories validated by TLC (RingBufferTrace.tla)',
+    technique='TLA+ spec RingBuffer.tla (bounded queue refined by head/tail/data) model-checked by TLC (plus Apalache: size/empty/full agreement inductive on the abstraction RingBufferAbs.tla for unbounded capacity, refinement checked by TLC); every generated transition/path replayed on octet_ring and a uint32_t instantiation; recorded random histories validated by TLC (RingBufferTrace.tla)',
     level='TLC explores all reachable (head, tail, data, override, queue) states for capacities up to the bound over a two-value alphabet and checks queue refinement, size/empty/full agreement and both iterator invariants in each; every transition of that graph, all paths to a fixed depth and random walks are executed on the real macros (two element types, exact-size blocks under ASan) comparing return value, size/empty/full and both iterator sequences; long random histories at larger capacities are validated by TLC.',
     note='Trusted: TLC, harness/ring.c (projection by the public size/empty/full/iterator API only), ASan. Capacity 0 is outside the API contract.',
 )
@@ -41,6 +41,19 @@ def run(tier):
                   depth=9 if quick else 11, budget=40000 if quick else 1500000,
                   walks=300 if quick else 3000, walklen=300,
                   nontrivial=lambda u, evl, post: u != post)
+    # unbounded capacities: Apalache proves size/empty/full agreement inductive on RingBufferAbs.tla; RefinesAbs (TLC) ties it in
+    import subprocess, os
+    apa = []
+    for init, length in (('Init', '0'), ('IndInit', '1')):
+        r = subprocess.run(['timeout', '300', 'apalache-mc', 'check', '--init=' + init, '--inv=IndInv', '--length=' + length,
+                            '--out-dir=' + os.path.join(vf.OUT, '_apalache'), 'RingBufferAbs.tla'],
+                           cwd=vf.SPEC, stdout=subprocess.PIPE, stderr=subprocess.STDOUT, text=True)
+        ok = 'EXITCODE: OK' in r.stdout
+        apa.append(dict(init=init, length=int(length), ok=ok))
+        if not ok:
+            print(r.stdout[-1500:])
+            vf.die('Apalache did not discharge the inductive invariant of RingBufferAbs.tla (%s)' % init)
+    v.notes['apalache_inductive_invariant'] = apa
     rnd = random.Random(vf.seed())
     vf.trace_flow(v, 'RingBufferTrace.tla', 'RingBufferTrace.cfg', 'ring',
                   histories(rnd, 48 if quick else 320, 300 if quick else 1000), 'rbtrace')
